@@ -109,13 +109,13 @@ def rust_for(c):
 def run(ctx):
     ctx.level = "translation_validation"
     ctx.rule = ("programs = macro invocations: TLC enumerates all 496 shapes (0..4 captures in every &/&mut pattern and order, 1..4 "
-                "arguments, with/without return type, recursive calls with/without trailing comma) and computes, by the explicit recursion "
+                "arguments; thorough: 0..6 captures and 1..6 arguments, 3048 shapes, with/without return type, recursive calls with/without trailing comma) and computes, by the explicit recursion "
                 "that DEFINES the canonical body's meaning, the return value and the final captured variables for three argument vectors; "
                 "one generated #[test] per shape invokes rec_lambda! with exactly that shape (body reads every shared capture, mutates "
                 "every mutable capture, branches on the arguments, recurses twice with rotated / decremented arguments) and asserts the "
                 "specification's values, next to a hand-written recursive fn; compiled and run against /repo. Non-trivial = shape with at "
                 "least one capture.")
-    cfg = ctx.cfg("lambda", "RecLambda.cfg")
+    cfg = ctx.cfg("lambda", "RecLambda.cfg", {"MaxCaps": ctx.q("4", "6"), "MaxArgs": ctx.q("4", "6")})
     cases_file, n = ctx.gen("lambda", "RecLambda", cfg, "shapes.ndjson", stage="gen", workers=4, timeout=600, coverage=False)
     cases = []
     with open(cases_file) as f:
